@@ -179,7 +179,7 @@ def check(ctx):
            else f"call vector built from {ir.show(CALLED_P, maxdepth=3)}")
     contests_t = CALLED_P[2][2]
     okc = contests_t[0] == "attr" and contests_t[2] == "columns" and any(
-        x == ("attr", contests_t[1], "values") for x in ir.walk(ps.env.get("aggregate_indicator", ("const", None))))
+        x == ("attr", contests_t[1], "values") for _, _, t_, _ in ps.assigns for x in ir.walk(t_))
     ctx.ob("C07.R1.order", f"{gp.qualname}|contest order = indicator column order", okc, gp.where(),
            "contests are the columns of the same dummies frame whose values form the aggregate indicator" if okc
            else "contest names are not taken from the indicator's own columns (vector may be misaligned with rows)")
